@@ -104,6 +104,11 @@ func FaultTable() []FaultRow {
 	add("dead.Set", true, deadOp("Set", func(g *Gen, op *Op) bool { op.ID = g.anyUsed(); op.Val = g.val(); return true }))
 	add("dead.Get", true, deadOp("Get", func(g *Gen, op *Op) bool { op.ID = g.anyUsed(); return true }))
 	add("dead.Has", true, deadOp("Has", func(g *Gen, op *Op) bool { op.ID = g.anyUsed(); return true }))
+	// (a call that names no component at all is still a call on a dead entity)
+	add("dead.Add.empty", true, deadOp("Add", nil))
+	add("dead.Remove.empty", true, deadOp("Remove", nil))
+	add("dead.Exchange.empty", true, deadOp("Exchange", nil))
+	add("dead.BuilderAdd.empty", true, deadOp("BuilderAdd", nil))
 	add("dead.Mask", true, deadOp("MaskOf", nil))
 	add("dead.Ids", true, deadOp("MaskOf", func(g *Gen, op *Op) bool { op.Alt = true; return true }))
 	relFill := func(g *Gen, op *Op) bool {
